@@ -34,6 +34,10 @@ pub enum IppTamper {
     ClaimedHalf,
     /// unequal list lengths
     DropOnlyR,
+    DropOnlyL,
+    /// a surplus point in one list only (all other entries untouched)
+    AddOnlyR(u64),
+    AddOnlyL(u64),
 }
 
 #[derive(Clone, Debug, Serialize, Deserialize)]
@@ -273,6 +277,20 @@ pub fn run_case<G: AffineRepr>(run: u64, case: &Case, st: &mut Stats) {
                 pf.r.pop();
                 true
             }
+            IppTamper::DropOnlyL if case.k > 0 => {
+                pf.l.pop();
+                true
+            }
+            IppTamper::AddOnlyR(seed) => {
+                let mut r = rng_from_u64(*seed, "ipp-surplus");
+                pf.r.push(G::rand(&mut r));
+                true
+            }
+            IppTamper::AddOnlyL(seed) => {
+                let mut r = rng_from_u64(*seed, "ipp-surplus");
+                pf.l.push(G::rand(&mut r));
+                true
+            }
             _ => false,
         };
         if !fit {
@@ -353,6 +371,9 @@ pub fn case_for(seed: u64, tier: Tier, run: u64) -> Case {
         IppTamper::ClaimedHalf,
         IppTamper::DropRound,
         IppTamper::DropOnlyR,
+        IppTamper::DropOnlyL,
+        IppTamper::AddOnlyR(rng.next_u64()),
+        IppTamper::AddOnlyL(rng.next_u64()),
         IppTamper::GFactor(below(&mut rng, n), d()),
         IppTamper::HFactor(below(&mut rng, n), d()),
     ];
@@ -381,7 +402,7 @@ pub fn run(ctx: &Ctx) -> i32 {
         stats,
         Report {
             level: "exploration",
-            rule: "inner-product sessions through the guarded re-export: k in 0..=kmax, vectors from {dense, sparse, zero half, 0/1, single non-zero, all zero, special values}, factors from {ones, powers of a challenge, 1|y split, y|1 split, single non-one among ones, random mix of ones and y, small special values (1, -1, 2, y) mixed, uniform non-zero}, random Q, three curves. The created proof must EQUAL the reference prover's (explicit folding) in every round and final scalar, have exactly k rounds, and produce the scheduled transcript history; then each tampered variant (wrong product, wrong P, a/b altered, round negated/swapped/replaced/identity/dropped/added, factor altered, claimed n doubled/halved, unequal lists) is judged by real verify and by the reference verifier; verdicts must coincide (degenerate identity cross terms are rejected by design by both). distinct by (curve, k, vector kinds, factor kinds, tamper kind, verdict)".into(),
+            rule: "inner-product sessions through the guarded re-export: k in 0..=kmax, vectors from {dense, sparse, zero half, 0/1, single non-zero, all zero, special values}, factors from {ones, powers of a challenge, 1|y split, y|1 split, single non-one among ones, random mix of ones and y, small special values (1, -1, 2, y) mixed, uniform non-zero}, random Q, three curves. The created proof must EQUAL the reference prover's (explicit folding) in every round and final scalar, have exactly k rounds, and produce the scheduled transcript history; then each tampered variant (wrong product, wrong P, a/b altered, round negated/swapped/replaced/identity/dropped/added, factor altered, claimed n doubled/halved, unequal lists: a point missing from / surplus in one list only) is judged by real verify and by the reference verifier; verdicts must coincide (degenerate identity cross terms are rejected by design by both). distinct by (curve, k, vector kinds, factor kinds, tamper kind, verdict)".into(),
             exhaustive: false,
             assumptions: base_assumptions(),
             real_components: REAL.to_vec(),
